@@ -394,3 +394,42 @@ fn winding_big_case(cx: &mut Ctx, case: &Value) {
         }
     }
 }
+
+/// Gen_OrientPinned cases: adversarial triples (limbs + one exponent per point) on which the plain determinant is confidently
+/// wrong; the exact sign comes from BigInt.tla.  Every argument order, exact power-of-two scalings and the symmetries of the square.
+pub fn kernel_pinned_case(cx: &mut Ctx, n: u64, case: &Value) {
+    if !cx.wants("C03") {
+        return;
+    }
+    let num = |k: &str, e: &str| -> f64 {
+        let mut v = 0.0f64;
+        for l in case[k].as_array().unwrap().iter().rev() {
+            v = v * 8192.0 + l.as_f64().unwrap();
+        }
+        v * 2f64.powi(case[e].as_i64().unwrap() as i32)
+    };
+    let (a0, b0, c0) = ((num("ax", "aexp"), num("ay", "aexp")), (num("bx", "bexp"), num("by", "bexp")), (num("cx", "cexp"), num("cy", "cexp")));
+    let so = case["orient"].as_i64().unwrap();
+    cx.count("kernel_pinned_cases", 1);
+    cx.count(&format!("kernel_pinned_band_{}", case["band"]), 1);
+    if n % 97 == 0 {
+        cx.sample(case.clone());
+    }
+    let d4: [(f64, f64, f64, f64, i64); 4] = [(1.0, 0.0, 0.0, 1.0, 1), (0.0, -1.0, 1.0, 0.0, 1), (-1.0, 0.0, 0.0, 1.0, -1), (0.0, 1.0, 1.0, 0.0, -1)];
+    for (si, scale) in [1.0f64, 2f64.powi(40), 2f64.powi(-300)].iter().enumerate() {
+        for (di, (m0, m1, m2, m3, dsign)) in d4.iter().enumerate() {
+            if si > 0 && di != (n as usize + si) % 4 { continue; }
+            let f = |p: (f64, f64)| Coord { x: (m0 * p.0 + m1 * p.1) * scale, y: (m2 * p.0 + m3 * p.1) * scale };
+            let (a, b, c) = (f(a0), f(b0), f(c0));
+            let want = so * dsign;
+            let got = [sign_of(RobustKernel::orient2d(a, b, c)), sign_of(RobustKernel::orient2d(b, c, a)), sign_of(RobustKernel::orient2d(c, a, b)),
+                       -sign_of(RobustKernel::orient2d(b, a, c)), -sign_of(RobustKernel::orient2d(a, c, b)), -sign_of(RobustKernel::orient2d(c, b, a))];
+            if got == [want; 6] { cx.ok("pinned_orient2d"); } else { cx.bad("C03", "pinned_orient2d", case, json!({"what": format!("scale 2^{} symmetry {di}: (a,b,c) (b,c,a) (c,a,b) -(b,a,c) -(a,c,b) -(c,b,a)", scale.log2()), "got": got, "want": want})); }
+            let on = [Line::new(a, b).intersects(&c), Line::new(b, c).intersects(&a), Line::new(c, a).intersects(&b)];
+            if on == [false; 3] { cx.ok("pinned_point_on_segment"); } else { cx.bad("C03", "pinned_point_on_segment", case, json!({"what": "a point that is not exactly on the line reported on the segment", "got": on})); }
+            let wo = LineString::new(vec![a, b, c, a]).winding_order();
+            let want_wo = if want == 1 { Some(WindingOrder::CounterClockwise) } else { Some(WindingOrder::Clockwise) };
+            if wo == want_wo { cx.ok("pinned_winding_order"); } else { cx.bad("C03", "pinned_winding_order", case, json!({"got": format!("{wo:?}"), "want": format!("{want_wo:?}")})); }
+        }
+    }
+}
